@@ -140,7 +140,10 @@ def compare(ctx, site, spec, ev, p0, v0, q0, a, w, g, dt, ref, sub="flow"):
     X1 = X1[:, :, 0]
     p1, v1, R1 = ref(p0, v0, R0, a, w, g, dt)
     if so3.kind == "euler":
-        ok = so3.gimbal_dist(R1) > 2.5e-3
+        # Euler angles inside the +-1e-3 gimbal band are outside the documented domain, for the state handed in as well
+        # as for the result (found by the thorough tier: an initial pitch of -pi/2 + 8.6e-4 lost 1e-3 in the conversion)
+        ok = (so3.gimbal_dist(R1) > 2.5e-3) & (so3.gimbal_dist(R0) > 2.5e-3)
+        ctx.skip("euler_gimbal_band:" + site, int((~ok).sum()))
     else:
         ok = np.ones(len(dt), bool)
     T = dt
@@ -156,7 +159,7 @@ def compare(ctx, site, spec, ev, p0, v0, q0, a, w, g, dt, ref, sub="flow"):
     if so3.kind == "quat":
         ctx.check_array("unit_norm", site, np.abs(np.linalg.norm(X1[:, 6:], axis=1) - 1), 1e-9, inp)
     # dt = 0 is the identity (exact up to the quaternion sign convention: compare parameters)
-    z = dt == 0
+    z = (dt == 0) & ok
     if z.any():
         e0 = np.maximum(np.abs(X1[z, :6] - x0[z, :6]).max(axis=1), np.abs(so3.mat(X1[z, 6:]) - R0[z]).max(axis=(1, 2)))
         ctx.check_array("dt0_identity", site, e0, 1e-12 * scale[z], {k: v[z] for k, v in inp.items()})
